@@ -68,6 +68,8 @@ func NewChunker(fn string) (*Chunker, error) {
 			}
 			return nil, err
 		}
+		// skipped empty lines also occupy bytes of the physical file
+		curr = byLines.Offset() - int64(len(line)) - 1
 		end := curr + int64(len(line)) + 1 // +1 for '\n'
 		lineManifest = append(lineManifest, lineAddr{curr, end})
 		curr = end
